@@ -42,12 +42,18 @@ package keepclient
 //@   at assign status#1: set resp0 = status.response
 //@   at assign status#1: set loc0 = locator
 //@   at loop 2 back: assert len(retryServers) == len0 + ite(retryable(code), 1, 0)
+//@   # the list of servers to try again holds exactly the retryable failures of
+//@   # the current attempt (it starts empty in every attempt)
+//@   ghost nret int = 0
+//@   at assign nextServer#2: set nret = 0
+//@   at assign status#1: set nret = nret + ite(retryable(status.statusCode), 1, 0)
+//@   at assign sv#2: assert len(sv) == nret
 //@   at loop 2 back: assert code != 200 ==> replicasDone == done0 && locator == loc0
 //@   at loop 2 back: assert code == 200 ==> replicasDone == done0 + stored0 && locator == resp0
 //@   loop 1: invariant replicasDone + replicasTodo == old(kc.Want_replicas) && active >= 0 && retriesRemaining >= 0
 //@   loop 1: invariant retriesRemaining > 0 || replicasTodo <= 0
-//@   loop 2: invariant replicasDone + replicasTodo == old(kc.Want_replicas) && active >= 0 && retriesRemaining >= 0
-//@   loop 3: invariant replicasDone + replicasTodo == old(kc.Want_replicas) && active >= 0 && retriesRemaining >= 0 && replicasTodo > 0
+//@   loop 2: invariant replicasDone + replicasTodo == old(kc.Want_replicas) && active >= 0 && retriesRemaining >= 0 && len(retryServers) == nret
+//@   loop 3: invariant replicasDone + replicasTodo == old(kc.Want_replicas) && active >= 0 && retriesRemaining >= 0 && replicasTodo > 0 && len(retryServers) == nret
 
 // ---------------------------------------------------------------- C12: probe order
 
@@ -217,11 +223,20 @@ package keepclient
 // uploadToKeepServer reports exactly one status on every path; the status code
 // and the replicas-stored count come from the response; a nil error is
 // reported only for a 200 answer whose body could be read.
+// (library assumption: ReadAll reads from its reader into a new buffer and has
+// no access to this function's local variables)
+//@ extern ioutil.ReadAll
+//@   modifies mem:byte ghost:stream
 //@ func KeepClient.uploadToKeepServer property C11 safety -bounds
 //@   at send#1: assert $v.err != nil && $v.statusCode == 0
 //@   at send#2: assert $v.err != nil && $v.statusCode == 0
 //@   at send#3: assert $v.err != nil && $v.statusCode == resp.StatusCode && $v.replicasStored == rep
 //@   at send#4: assert $v.err == nil && resp.StatusCode == 200 && $v.statusCode == 200 && $v.replicasStored == rep && $v.response == response
+//@   # a success answer without the replicas-stored header counts as one replica
+//@   ghost hdr string = ""
+//@   calls Header.Get#1: requires $0 == XKeepReplicasStored
+//@   calls Header.Get#1: set hdr = $r
+//@   at send#4: assert hdr == "" ==> $v.replicasStored == 1
 //@   at send#5: assert $v.err != nil && $v.statusCode == resp.StatusCode && resp.StatusCode != 200
 
 // PutB computes the locator hash from the very bytes it sends.
